@@ -273,6 +273,26 @@ func cmdC01(args []string) {
 		ev["src"] = "random"
 		emit(ev)
 	}
+	if *nrand > 0 { // deep nesting: a chain of arrays d deep around a leaf, with siblings before and after the nested element
+		for _, d := range []int{5, 8, 9, 10, 16, 17, 33, 64} {
+			for shape := 0; shape < 3; shape++ {
+				v := randLeaf(rng, false)
+				for k := 0; k < d; k++ {
+					switch shape {
+					case 0:
+						v = Val{T: "arr", E: []Val{v}}
+					case 1:
+						v = Val{T: "arr", E: []Val{{T: "int", P: fmtInt(k)}, v}}
+					default:
+						v = Val{T: "arr", E: []Val{v, {T: "bulk", P: []byte("after")}, {T: "arr", E: []Val{}}}}
+					}
+				}
+				ev := rtEvent(v, nil)
+				ev["src"] = "deep"
+				emit(ev)
+			}
+		}
+	}
 	for i := 0; i < *nbig; i++ {
 		n := bulkLens[i%len(bulkLens)]
 		ev := rtEvent(Val{T: "bulk", P: randBytes(rng, n, false)}, nil)
